@@ -439,4 +439,100 @@ theorem addRr_round_trip (hint : Hint) (owner : WName) (ty cls ttl : Nat) (rd : 
   · rw [be32_of_agree hmsg (by omega)]; exact be32_of_bytesAt t3 httl
   · rw [be16_of_agree hmsg (by omega)]; exact hb
 
+
+/-- `write_unhinted_name` is `write_hinted_name` without a hint -/
+theorem writeUnhintedName_eq_none (n : WName) : writeUnhintedName n = writeHintedName .none n := by
+  funext s
+  unfold writeUnhintedName writeHintedName
+  simp only [M.bind_apply, M.gets_apply]
+  by_cases h1 : s.mode = .disabled ∨ n.wire.length ≤ 2
+  · rw [if_pos h1, if_neg (by intro ⟨a, b⟩; rcases h1 with h | h; exact a h; omega)]
+  · rw [if_neg h1, if_pos (by constructor; intro h; exact h1 (Or.inl h); omega)]
+    split <;> rfl
+
+/-- the round trip of a name written without a hint (QNAME, names inside RDATA) -/
+theorem writeUnhintedName_round_trip (n : WName) (s : State) (h : WInv s) (hn : n.WF) (p : Option Prior)
+    (hok : (writeUnhintedName n s).1 = .ok p) :
+    ∃ w k, specDecodeName ((writeUnhintedName n s).2.octets.extract 0 (writeUnhintedName n s).2.cursor)
+        s.cursor = some (w, n.len, k) ∧
+      w.map lowerU8 = n.wire.map lowerU8 ∧ (s.mode ≠ .standard → w = n.wire) := by
+  rw [writeUnhintedName_eq_none] at hok ⊢
+  exact writeHintedName_round_trip .none n s h hn trivial p hok
+
+/-- **the round trip of the question, in every compression mode**: after a successful
+    `add_question`'s body, on any message that agrees with the buffer below the cursor, the
+    independent decoder reads at the old cursor the QNAME (same label count, equal up to ASCII case,
+    octet for octet unless the mode is `Standard`) on `k` octets; QTYPE and QCLASS follow -/
+theorem addQuestionBody_round_trip (qn : WName) (qt qc : Nat) (s s' : State) (hw : WInv s) (hwf : qn.WF)
+    (hqt : qt < 65536) (hqc : qc < 65536)
+    (h : addQuestionBody qn qt qc s = (.ok (), s')) (msg : Bytes)
+    (hmsg : ∀ i, i < s'.cursor → msg[i]? = s'.octets[i]?) :
+    ∃ w k, specDecodeName msg s.cursor = some (w, qn.len, k) ∧ s'.cursor = s.cursor + k + 4 ∧
+      w.map lowerU8 = qn.wire.map lowerU8 ∧ (s.mode ≠ .standard → w = qn.wire) ∧
+      be16 msg (s.cursor + k) = qt ∧ be16 msg (s.cursor + k + 2) = qc := by
+  unfold addQuestionBody at h
+  obtain ⟨_, sA, hA, h⟩ := M.bind_ok_inv h
+  obtain ⟨p, sB, hB, h⟩ := M.bind_ok_inv h
+  obtain ⟨_, sC, hC, h⟩ := M.bind_ok_inv h
+  obtain ⟨_, sD, hD, h⟩ := M.bind_ok_inv h
+  obtain ⟨_, sE, hE, hF⟩ := M.bind_ok_inv h
+  simp only [setCtx, M.modify_apply, Prod.mk.injEq, true_and] at hA hC hD
+  subst hA
+  have e1 := ext_setCtx s .qname
+  have wA : WInv { s with gCtx := .qname } := winv_ext hw e1 rfl rfl rfl rfl
+  have hs := writeUnhintedName_spec qn _ wA hwf
+  have hf := frame_writeUnhintedName qn { s with gCtx := .qname }
+  obtain ⟨w, k0, hd, hcase, hexact⟩ := writeUnhintedName_round_trip qn _ wA hwf p (by rw [hB])
+  rw [hB] at hs hf hd
+  simp only at hd
+  obtain ⟨hwB, _, _, _, _, _, hck⟩ := hs.ok p rfl
+  have hcurB : s.cursor ≤ sB.cursor := hf.cur
+  simp only at hck hcurB
+  have hcsB : sB.cursor ≤ sB.octets.size := Nat.le_trans hwB.cur_av hwB.av_size
+  have hcm : ChunkAt (sB.octets.extract 0 sB.cursor) s.cursor (sB.cursor - s.cursor) :=
+    chunkAt_frame hck (fun i _ h2 => extract_prefix_get _ _ hcsB _ (by omega))
+  have hk0 := specDecodeName_chunk hcm hd
+  subst hk0
+  unfold tryPushU16 at hE hF
+  obtain ⟨eE, zE⟩ := tryPush_ok_inv hE
+  obtain ⟨eF, zF⟩ := tryPush_ok_inv hF
+  have hl2 : ∀ x, (u16be x).length = 2 := fun _ => rfl
+  have cC : sC.cursor = sB.cursor := by rw [← hC]
+  have oC : sC.octets = sB.octets := by rw [← hC]
+  have cD : sD.cursor = sB.cursor := by rw [← hD]; split <;> exact cC
+  have oD : sD.octets = sB.octets := by rw [← hD]; split <;> exact oC
+  have cE : sE.cursor = sB.cursor + 2 := by rw [eE]; simp [pushed, hl2, cD]
+  have cF : s'.cursor = sB.cursor + 4 := by rw [eF]; simp [pushed, hl2, cE]
+  have preF : ∀ i, i < sB.cursor → s'.octets[i]? = sB.octets[i]? := by
+    intro i hi
+    rw [eF, pushed_get_lt _ _ _ (by omega), eE, pushed_get_lt _ _ _ (by omega), oD]
+  have tqt : BytesAt s'.octets sB.cursor (u16be qt) := by
+    intro i hi
+    rw [hl2] at hi
+    rw [eF, pushed_get_lt _ _ _ (by omega), eE]
+    have := bytesAt_writeAt sD.octets sD.cursor (u16be qt) zE i (by rw [hl2]; exact hi)
+    show (writeAt sD.octets sD.cursor (u16be qt))[sB.cursor + i]? = _
+    rw [cD] at this ⊢
+    exact this
+  have tqc : BytesAt s'.octets (sB.cursor + 2) (u16be qc) := by
+    intro i hi
+    rw [hl2] at hi
+    rw [eF]
+    have := bytesAt_writeAt sE.octets sE.cursor (u16be qc) zF i (by rw [hl2]; exact hi)
+    show (writeAt sE.octets sE.cursor (u16be qc))[sB.cursor + 2 + i]? = _
+    rw [cE] at this ⊢
+    exact this
+  have hD' := (specDecodeName_iff _ _ _ _ _).mp hd
+  have hszB : (sB.octets.extract 0 sB.cursor).size = sB.cursor := by simp; omega
+  have hagree : ∀ i, i < (sB.octets.extract 0 sB.cursor).size → msg[i]? = (sB.octets.extract 0 sB.cursor)[i]? := by
+    intro i hi
+    rw [hszB] at hi
+    rw [extract_prefix_get _ _ hcsB _ hi, hmsg i (by omega), preF i hi]
+  have hDm : DecodesName msg s.cursor w qn.len (sB.cursor - s.cursor) := ⟨decodes_prefix hagree hD'.1, hD'.2⟩
+  refine ⟨w, sB.cursor - s.cursor, (specDecodeName_iff _ _ _ _ _).mpr hDm, by omega, hcase, hexact, ?_, ?_⟩
+  · rw [show s.cursor + (sB.cursor - s.cursor) = sB.cursor by omega, be16_of_agree hmsg (by omega)]
+    exact be16_of_bytesAt tqt hqt
+  · rw [show s.cursor + (sB.cursor - s.cursor) + 2 = sB.cursor + 2 by omega, be16_of_agree hmsg (by omega)]
+    exact be16_of_bytesAt tqc hqc
+
 end QV.Writer
